@@ -28,6 +28,7 @@ func init() {
 	reg(propC06)
 	reg(propC07)
 	reg(propC08)
+	reg(propC09)
 	reg(propC10)
 	reg(propC11)
 	reg(propC12)
